@@ -59,28 +59,7 @@ func VerifyFunc(p *Program, fc *FuncContract, prop string) (u *Unit) {
 	}()
 	cx := x.newCtx(fi, fc)
 	x.cx = cx
-	if fc.Flags["pure"] || fc.Flags["readonly"] {
-		o := w.Oblige(x.oblName("frame:readonly", ""), "frame", True, True)
-		o.Preset = true
-		o.Solver = "frame-analysis"
-		if p.IsReadonly(fi) {
-			o.Result = "unsat"
-		} else {
-			o.Result = "sat"
-			o.Output = "the body (or a callee) may write through the receiver or a pointer/map parameter"
-		}
-	}
-	for _, f := range fc.NoRead {
-		o := w.Oblige(x.oblName("frame:noread", f), "frame", True, True)
-		o.Preset = true
-		o.Solver = "frame-analysis"
-		if p.ReadsField(fi, f, map[*FuncInfo]bool{}) {
-			o.Result = "sat"
-			o.Output = "the function (or a callee on the same receiver) reads field " + f
-		} else {
-			o.Result = "unsat"
-		}
-	}
+	frameObligations(p, x, fi, fc)
 	// loops named in the contract must exist
 	for ord := range fc.Loops {
 		if ord >= len(cx.loopOrd) {
@@ -219,6 +198,10 @@ func Units(p *Program, prop string) []*Unit {
 		if fc.Flags["inline"] && len(fc.Ensures) == 0 && len(fc.Requires) == 0 {
 			continue // marker only: callers inline the body
 		}
+		if fc.Flags["frameonly"] {
+			us = append(us, VerifyFrameOnly(p, fc, prop))
+			continue
+		}
 		if fc.Flags["callsites"] {
 			us = append(us, VerifyCallsites(p, fc, prop))
 			continue
@@ -253,4 +236,57 @@ func (o *Obligation) SMTMode(models, macroAt bool) string {
 	}
 	b.WriteString("(check-sat)\n")
 	return b.String()
+}
+
+// frameObligations emits the obligations decided by the engine's static frame analyses.
+func frameObligations(p *Program, x *Exec, fi *FuncInfo, fc *FuncContract) {
+	w := x.W
+	if fc.Flags["pure"] || fc.Flags["readonly"] {
+		o := w.Oblige(x.oblName("frame:readonly", ""), "frame", True, True)
+		o.Preset = true
+		o.Solver = "frame-analysis"
+		if p.IsReadonly(fi) {
+			o.Result = "unsat"
+		} else {
+			o.Result = "sat"
+			o.Output = "the body (or a callee) may write through the receiver or a pointer/map parameter"
+		}
+	}
+	for _, f := range fc.MustRead {
+		o := w.Oblige(x.oblName("frame:mustread", f), "frame", True, True)
+		o.Preset = true
+		o.Solver = "frame-analysis"
+		if p.ReadsField(fi, f, map[*FuncInfo]bool{}) {
+			o.Result = "unsat"
+		} else {
+			o.Result = "sat"
+			o.Output = "neither the function nor any callee on the same receiver reads field " + f + ": the result cannot depend on it"
+		}
+	}
+	for _, f := range fc.NoRead {
+		o := w.Oblige(x.oblName("frame:noread", f), "frame", True, True)
+		o.Preset = true
+		o.Solver = "frame-analysis"
+		if p.ReadsField(fi, f, map[*FuncInfo]bool{}) {
+			o.Result = "sat"
+			o.Output = "the function (or a callee on the same receiver) reads field " + f
+		} else {
+			o.Result = "unsat"
+		}
+	}
+}
+
+// VerifyFrameOnly: a unit whose contract consists only of frame clauses (no symbolic execution of the body).
+func VerifyFrameOnly(p *Program, fc *FuncContract, prop string) *Unit {
+	u := &Unit{Name: fc.Key(), Kind: "func", File: relFile(fc.File), Props: fc.Props, Contract: fc}
+	w := NewWorld()
+	u.World = w
+	fi := p.Funcs[fc.Key()]
+	if fi == nil || fi.Decl.Body == nil {
+		u.Err = "attach: function " + fc.Key() + " not found in the repository"
+		return u
+	}
+	x := NewExec(p, w, prop+"/"+fc.Key())
+	frameObligations(p, x, fi, fc)
+	return u
 }
